@@ -47,13 +47,29 @@ def _mk(kind, reqmethod):
     return clienting.Respondent(msg=bytearray(), method=reqmethod)
 
 
-def feed(m, pieces):
-    """Drive the real parser over the pieces.  Returns outcome dict."""
-    p = _mk(m["kind"], m["reqmethod"])
+def feed(m, pieces, retarget=False, parser=None):
+    """Drive the real parser over the pieces.  Returns outcome dict.
+    retarget: the parser is pointed at its buffer with the public makeParser(msg=buffer) (the first piece is already in
+    the buffer then; an empty first piece means an empty buffer) instead of getting it from the constructor;
+    parser: a parser object that has just completed another message is used again after makeParser(), as a server does
+    for the next request on a connection"""
     out = {"exc": None, "calls": 0}
+    if parser is not None:
+        p = parser
+        p.makeParser()
+    else:
+        p = _mk(m["kind"], m["reqmethod"])
+    buf = None
+    if retarget:
+        buf = bytearray(pieces[0])      # the caller's receive buffer: later bytes arrive in *it*
+        pieces = pieces[1:]
+        p.makeParser(msg=buf)
+        if buf:
+            p.parse()
+    out["p"] = p
     try:
         for piece in pieces:
-            p.msg.extend(piece)
+            (buf if buf is not None else p.msg).extend(piece)
             if p.parser:
                 p.parse()
                 out["calls"] += 1
@@ -199,6 +215,19 @@ def check_message(ctx, m, rng, nrandom, deadline):
         ctx.event(got["calls"])
         if got.get("extra") and m["framing"] != "close":
             ctx.hit("needed_extra_parse_calls")
+        if count % 7 == 0:
+            # the same delivery to a parser that is pointed at its buffer with makeParser(msg=...): with nothing received yet
+            # (fresh connection), or with the first piece already there
+            for first_empty in (True, False):
+                pcs = hg.cut(stream, cuts)
+                alt = feed(m, ([b""] + pcs) if first_empty else pcs, retarget=True)
+                ctx.hit("retargeted_parsers" + ("_empty_buffer" if first_empty else ""))
+                altsame = (alt["exc"] == got["exc"] and alt.get("done") == got.get("done") and alt.get("fields") == got.get("fields")
+                           and alt.get("rest") == got.get("rest"))
+                ctx.check(altsame, "split/makeparser-msg-differs/%s" % ("empty-buffer" if first_empty else "filled-buffer"),
+                          "a parser given its buffer through makeParser(msg=buffer) parses the same delivery differently",
+                          lambda alt=alt: wit({"cuts": list(cuts), "constructor_buffer": {k: v for k, v in got.items() if k != "p"},
+                                               "makeparser_buffer": {k: v for k, v in alt.items() if k != "p"}}))
     ctx.evaluations += count
     ctx.hit("split_cases", count)
     nontrivial = multi > 0 and bool(m["hdrs"])
@@ -213,6 +242,35 @@ def check_message(ctx, m, rng, nrandom, deadline):
     if m.get("lf"):
         ctx.hit("bare_lf_heads")
     return ok
+
+
+def check_pair(ctx, m1, m2, rng):
+    """two messages one after the other through the same parser object (makeParser() in between, as on a kept-alive
+    connection): the second must parse exactly as it does through a fresh parser, under a split too"""
+    if m1["framing"] == "close" or m1["kind"] != m2["kind"]:
+        return
+    s1, s2 = m1["raw"], m2["raw"] + m2["tail"]
+    alone = feed(m2, [s2])
+    if alone["exc"] or not alone.get("done"):
+        return
+    cuts = hg.random_split(rng, len(s2))
+    first = feed(m1, [s1])
+    if first["exc"] or not first.get("done") or first.get("rest"):
+        return
+    p = first["p"]
+    if m2["kind"] == "response":
+        p.method = m2["reqmethod"]
+    again = feed(m2, hg.cut(s2, cuts) if cuts else [s2], parser=p)
+    ctx.hit("parser_reused_for_next_message")
+    ctx.hit("reuse:%s->%s" % (m1["framing"], m2["framing"]))
+    same = (again["exc"] is None and again.get("done") == alone.get("done") and again.get("fields") == alone.get("fields")
+            and again.get("rest") == alone.get("rest") and bool(again.get("errored")) == bool(alone.get("errored")))
+    ctx.check(same, "reuse/next-message-differs/%s-after-%s" % (m2["framing"], m1["framing"]),
+              "a message parsed by a parser object that has just completed another message differs from its parse by a fresh parser",
+              lambda: jsonable({"first": s1, "second": s2, "cuts": list(cuts),
+                                "fresh": {k: v for k, v in alone.items() if k != "p"},
+                                "reused": {k: v for k, v in again.items() if k != "p"}}))
+    ctx.evaluations += 1
 
 
 def gen_for(seed, idx, short, seps=None):
@@ -235,9 +293,14 @@ def worker(ctx, job):
         check_message(ctx, m, rng, 0, deadline)
         if len(ctx.samples) < 1:
             ctx.sample(jsonable({"message": m["raw"] + m["tail"], "splits": "all <=3 pieces"}))
+    prev = None
     for idx in job["long"]:
         m, rng = gen_for(ctx.seed, idx, False)
         check_message(ctx, m, rng, job["nrandom"], deadline)
+        for _ in range(4):
+            m2, rng2 = gen_for(ctx.seed, idx * 7 + _ + 1000003, rng.random() < 0.5)
+            check_pair(ctx, m, m2, rng)
+            check_pair(ctx, m2, m, rng)
         if len(ctx.samples) < 2:
             ctx.sample(jsonable({"message": (m["raw"] + m["tail"])[:300], "splits": "%d random" % job["nrandom"]}))
 
@@ -258,6 +321,10 @@ def run(ctx):
     ctx.floor("short_messages_exhaustive", ctx.pick(16, 400))
     ctx.floor("chunk_extensions", ctx.pick(40, 1200))
     ctx.floor("trailers", ctx.pick(10, 400))
+    ctx.floor("retargeted_parsers_empty_buffer", ctx.pick(2000, 60000))
+    ctx.floor("parser_reused_for_next_message", ctx.pick(300, 30000))
+    for a, b in (("chunked", "length"), ("chunked", "none"), ("length", "chunked")):
+        ctx.floor("reuse:%s->%s" % (a, b), ctx.pick(8, 500))
     ctx.floor("pipelined_tail", ctx.pick(60, 1800))
     ctx.floor("sep:nosp", ctx.pick(20, 300))
     ctx.floor("bare_lf_heads", ctx.pick(3, 150))
